@@ -582,14 +582,15 @@ top:
 		return nil
 
 	case LexerUnquote:
+		lexer.state = LexerNormal
 		if r == '@' {
 			lexer.AppendToken(lexer.Token(TokenTildeAt, ""))
-		} else {
-			lexer.AppendToken(lexer.Token(TokenTilde, ""))
-			lexer.buffer.WriteRune(r)
+			return nil
 		}
-		lexer.state = LexerNormal
-		return nil
+		lexer.AppendToken(lexer.Token(TokenTilde, ""))
+		// r is the first rune of what is being unquoted: it may be a
+		// bracket, a quote, ... so lex it like any other rune.
+		goto top
 	case LexerFreshAssignOrColon:
 		lexer.state = LexerNormal
 
